@@ -104,7 +104,9 @@ func buildValue(s map[string]interface{}, data interface{}) reflect.Value {
 	return v
 }
 
-var fieldNames = []string{"Name", "Age", "Tags", "Items", "Next", "Ptr", "Flag", "Vals", "Kids", "Inner"}
+// (among them names whose lower-case spelling - the one expressions use - is a Go keyword, a
+// predeclared identifier or a JSON word: legal exported field names all the same)
+var fieldNames = []string{"Name", "Age", "Tags", "Items", "Next", "Ptr", "Flag", "Vals", "Kids", "Inner", "Type", "Map", "Range", "Default", "Func", "Select", "Go", "If", "Var", "Nil", "True", "Null", "Len", "X", "String", "Interface", "Struct", "Return"}
 
 func genTypeSpec(t *rapid.T, depth int) map[string]interface{} {
 	k := rapid.IntRange(0, 9).Draw(t, "tk")
@@ -678,6 +680,41 @@ func TestC19(t *testing.T) {
 			expr = errSeeds[rapid.IntRange(0, len(errSeeds)-1).Draw(t, "seed")].expr
 		case 3:
 			expr = []string{"avg(`[]`)", "to_number('inf')", "sum(`[1e308,1e308]`)", "-1", "-", "--", "-ast", "-input", "", " ", "a\nb", "'é'", "\"é\"", "@", "`\"x\"`"}[rapid.IntRange(0, 14).Draw(t, "special")]
+		case 6:
+			// hard characters written in the expression itself (its only transport is one process
+			// argument): C0 controls, ESC, DEL, C1 controls, line separators, a byte order mark - verbatim
+			// in raw strings, and where JSON allows them unescaped in quoted identifiers and literals
+			hs := strings.Replace(genHardString(t, "cliExprS"), "\x00", "\x01", -1)
+			if uni(t, 2, "cliExprCtl") == 0 {
+				hs = "a" + string(rune([]int{1, 7, 8, 0x1b, 0x1f, 0x7f, 0x80, 0x85, 0x9f, 0x2028, 0xfeff, 0xa0, 0x0c, 0x0b}[uni(t, 14, "cliCtl")])) + "b"
+			}
+			minimal := func(x string) string {
+				var sb strings.Builder
+				for _, r := range x {
+					switch {
+					case r == '"' || r == '\\':
+						sb.WriteByte('\\')
+						sb.WriteRune(r)
+					case r < 0x20:
+						fmt.Fprintf(&sb, "\\u%04x", r)
+					case r == '`':
+						sb.WriteString("\\u0060")
+					default:
+						sb.WriteRune(r)
+					}
+				}
+				return sb.String()
+			}
+			raw := "'x'"
+			if !strings.Contains(hs, "\\") {
+				raw = "'" + strings.Replace(hs, "'", "\\'", -1) + "'"
+			}
+			expr = []string{raw, "\"" + minimal(hs) + "\"", "`\"" + minimal(hs) + "\"`", "l[?@ == " + raw + "]", "[" + raw + ", s]", "{\"" + minimal(hs) + "\": s}", "s == " + raw, "@.\"" + minimal(hs) + "\" || " + raw}[uni(t, 8, "cliExprForm")]
+			d := map[string]interface{}{"s": hs, "l": []interface{}{hs, "x"}, hs: 1.0}
+			c := withExpr(Case{Property: "C19", Kind: "cli"}, expr)
+			c.Extra = map[string]interface{}{"input": ref.Canon(d), "channel": []string{"stdin", "file"}[uni(t, 2, "ctlChannel")], "dashdash": rapid.Bool().Draw(t, "ctlDash")}
+			run(t, c)
+			return
 		case 5:
 			// texts that no lexer may accept, alone and inside a sentence
 			expr = fmt.Sprintf([]string{"%s", "a.b || %s", "%s | c", "[%s]", "f(%s)", "a[?%s]"}[uni(t, 6, "lexCtx")], lexBroken[uni(t, len(lexBroken), "lexBroken")])
